@@ -27,6 +27,7 @@ import (
 	"fmt"
 	"math/rand"
 	"net"
+	"runtime"
 	"strings"
 	"sync"
 	"sync/atomic"
@@ -611,6 +612,12 @@ type c08SScenario struct {
 	// "expired" (deadline in the past; at most two per scenario, the client's
 	// breaker books those as failures)
 	Ctx []string `json:"ctx"`
+	// SrvAdv[i]: milliseconds by which only the SERVER clock moves before step i
+	// (caller clock stands still). Applied only while the server-side idle time of
+	// the bucket since its last executed script stays below the keys' TTL, so the
+	// keys of a bucket in continuous use can never run out: refill is a matter of
+	// the caller's clock alone.
+	SrvAdv []int64 `json:"server_only_adv_ms"`
 }
 
 func c08GenSustained(r *rand.Rand, calls int) c08SScenario {
@@ -634,6 +641,19 @@ func c08GenSustained(r *rand.Rand, calls int) c08SScenario {
 			st.Adv = 1000
 		}
 		sc.Steps = append(sc.Steps, st)
+	}
+	sc.SrvAdv = make([]int64, len(sc.Steps))
+	if ttl := c08TTL(rate, burst); ttl >= 2 && r.Intn(3) > 0 {
+		for i := 2; i < len(sc.SrvAdv); i++ {
+			switch x := r.Intn(100); {
+			case x < 12:
+				sc.SrvAdv[i] = 1000
+			case x < 15:
+				sc.SrvAdv[i] = (ttl - 1) * 1000
+			case x < 17:
+				sc.SrvAdv[i] = ttl*1000 - 1
+			}
+		}
 	}
 	sc.Ctx = make([]string, len(sc.Steps))
 	expired := 0
@@ -682,14 +702,28 @@ func runC08Sustained(m *vk.M, idx int, sc c08SScenario) {
 	cancel()
 	expired, cancel2 := context.WithDeadline(context.Background(), time.Now().Add(-time.Hour))
 	defer cancel2()
+	ttlMs := c08TTL(sc.Rate, sc.Burst) * 1000
+	var srvIdle, srvAhead int64 // server ms since the last executed script; server-only ms in total
 	for si, st := range sc.Steps {
-		if st.Adv > 0 {
+		if st.Adv > 0 && (srvAhead == 0 || srvIdle+st.Adv < ttlMs) {
+			// (once the server runs ahead, a lock-step advance that would let the keys
+			// expire after less caller time than a refill period is left out)
 			d := time.Duration(st.Adv) * time.Millisecond
 			clock = clock.Add(d)
 			srv.mr.FastForward(d)
+			srvIdle += st.Adv
+		}
+		if x := sc.SrvAdv[si]; x > 0 && srvIdle+x < ttlMs {
+			srv.mr.FastForward(time.Duration(x) * time.Millisecond)
+			srvIdle += x
+			srvAhead += x
+			m.Count("sustained.server-only-advance", 1)
 		}
 		sec := clock.Unix()
 		class := c08Class(ref, sec, st.N)
+		if srvAhead > 0 {
+			class += ":server-clock-ahead"
+		}
 		e0 := srv.evals.Load()
 		t0 := time.Now()
 		var got bool
@@ -746,6 +780,7 @@ func runC08Sustained(m *vk.M, idx int, sc c08SScenario) {
 			m.Note("case %d step %d: AllowN caused %d EVALs in %v on a healthy server (granted=%v, bucket %d, n=%d); scenario abandoned", idx, si, e, wall, got, avail, st.N)
 			return
 		}
+		srvIdle = 0 // the script ran: both keys were written with a fresh TTL
 		want := ref.take(sec, st.N)
 		if got {
 			grants++
@@ -886,106 +921,134 @@ func TestVerifC08TokenSustainedRace(t *testing.T) {
 	m := vk.New(t, "C08", "token limiter, healthy Redis, sustained over-quota traffic from 32 concurrent callers (-race): tokens granted per caller second never exceed the reference bucket's level, whoever answered")
 	defer m.Done()
 	defer c08Wall(m, time.Now())
-	const G = 32
 	n := vk.N(2, 40)
 	for i := 0; i < n; i++ {
-		if !m.Only(i) {
-			continue
-		}
-		r := m.Rand("sustained-race", i)
-		rate := int64(1 + r.Intn(6))
-		burst := (rate+1)/2 + int64(r.Intn(6))
-		nl := 1 + r.Intn(2)
-		per := 6 + r.Intn(vk.N(4, 10))
-		desc := fmt.Sprintf("case=%d;{\"rate\":%d,\"burst\":%d,\"limiters_on_one_key\":%d,\"goroutines\":%d,\"calls_each\":%d}", i, rate, burst, nl, G, per)
-		m.Current(desc)
-		key := fmt.Sprintf("c08v%d", i)
-		srv, err := newC08Srv("{" + key + "}")
-		if err != nil {
-			m.Inconclusive("miniredis: %v", err)
-			return
-		}
-		store := redis.New(srv.mr.Addr())
-		lims := make([]*TokenLimiter, nl)
-		for k := range lims {
-			lims[k] = NewTokenLimiter(int(rate), int(burst), store, key)
-		}
-		clock := time.Unix(1_600_000_000+int64(r.Intn(1000000)), 0)
-		level := burst
-		var totalGrant, totalDeny, offRedis int64
-		ok := true
-		for round := 0; round < 3 && ok; round++ {
-			if round > 0 {
-				adv := int64(r.Intn(2))
-				clock = clock.Add(time.Duration(adv) * time.Second)
-				srv.mr.FastForward(time.Duration(adv) * time.Second)
-				level += adv * rate
-				if level > burst {
-					level = burst
-				}
-			}
-			now := clock
-			e0 := srv.evals.Load()
-			var granted, denied, slow atomic.Int64
-			var wg sync.WaitGroup
-			gate := make(chan struct{})
-			for g := 0; g < G; g++ {
-				wg.Add(1)
-				go func(l *TokenLimiter) {
-					defer wg.Done()
-					<-gate
-					for k := 0; k < per; k++ {
-						t0 := time.Now()
-						if l.AllowN(now, 1) {
-							granted.Add(1)
-						} else {
-							denied.Add(1)
-						}
-						if time.Since(t0) >= c08FastCall {
-							slow.Add(1)
-						}
-					}
-				}(lims[g%nl])
-			}
-			close(gate)
-			wg.Wait()
-			e := srv.evals.Load() - e0
-			calls := int64(G * per)
-			m.Count("sustained-race.allowN", calls)
-			if slow.Load() > 0 || c08Misrouted(key) || e > calls {
-				// a stalled call may have been repeated or given up by the client: not judged
-				m.Count("sustained-race.abandoned", 1)
-				ok = false
-				break
-			}
-			offRedis += calls - e
-			totalGrant += granted.Load()
-			totalDeny += denied.Load()
-			if granted.Load() > level {
-				m.Violate("C08:token-race:sustained-over-admission", desc,
-					"round %d: %d concurrent AllowN(n=1) calls in one caller second were granted %d tokens, the bucket held %d (rate %d, burst %d); %d of the calls were answered without a script execution although the server is up and was never down; %d denials before this round",
-					round, calls, granted.Load(), level, rate, burst, calls-e, totalDeny-denied.Load())
-				ok = false
-				break
-			}
-			if e == calls && granted.Load() < level && denied.Load() > 0 {
-				m.Violate("C08:token-race:sustained-denied-with-tokens-left", desc, "round %d: %d calls all answered by Redis, %d granted although the bucket held %d", round, calls, granted.Load(), level)
-				ok = false
-				break
-			}
-			level -= granted.Load()
-		}
-		srv.mr.Close()
-		if ok {
-			m.Count("sustained-race.answered-without-script", offRedis)
-			m.Count("sustained-race.grant", totalGrant)
-			m.Count("sustained-race.deny", totalDeny)
-			m.Case(vk.Digest(rate, burst, nl, per, totalGrant, totalDeny), totalDeny >= 100)
-			if m.WantSample() {
-				m.Sample(map[string]any{"case": i, "rate": rate, "burst": burst, "limiters_on_one_key": nl, "goroutines": G, "calls_each_per_round": per, "rounds": 3, "granted": totalGrant, "denied": totalDeny})
+		if m.Only(i) {
+			r := m.Rand("sustained-race", i)
+			if !runC08Crowd(m, i, r, 32, 6+r.Intn(vk.N(4, 10)), "c08v", "C08:token-race:sustained", "sustained-race") {
+				return
 			}
 		}
 	}
+}
+
+// TestVerifC08TokenCrowd: more simultaneous callers than the redis client has
+// pooled connections (go-redis: 10 per CPU). Callers that have to wait for a
+// connection on a healthy server must still be answered from the one bucket.
+func TestVerifC08TokenCrowd(t *testing.T) {
+	m := vk.New(t, "C08", "token limiter, healthy Redis, more concurrent callers in one caller second than pooled connections (20 x GOMAXPROCS + 64 goroutines): tokens granted never exceed the reference bucket's level, whoever answered")
+	defer m.Done()
+	defer c08Wall(m, time.Now())
+	G := 20*runtime.GOMAXPROCS(0) + 64
+	n := vk.N(2, 30)
+	for i := 0; i < n; i++ {
+		if m.Only(i) {
+			if !runC08Crowd(m, i, m.Rand("crowd", i), G, 2, "c08y", "C08:token-crowd", "crowd") {
+				return
+			}
+		}
+	}
+}
+
+// runC08Crowd: G goroutines x per calls AllowN(now,1) in one caller second, three
+// rounds, on a server that is never faulted. false = could not start a server.
+func runC08Crowd(m *vk.M, i int, r *rand.Rand, G, per int, keyPrefix, sig, cnt string) bool {
+	{
+		{
+			rate := int64(1 + r.Intn(6))
+			burst := (rate+1)/2 + int64(r.Intn(6))
+			nl := 1 + r.Intn(2)
+			desc := fmt.Sprintf("case=%d;{\"rate\":%d,\"burst\":%d,\"limiters_on_one_key\":%d,\"goroutines\":%d,\"calls_each\":%d}", i, rate, burst, nl, G, per)
+			m.Current(desc)
+			key := fmt.Sprintf("%s%d", keyPrefix, i)
+			srv, err := newC08Srv("{" + key + "}")
+			if err != nil {
+				m.Inconclusive("miniredis: %v", err)
+				return false
+			}
+			store := redis.New(srv.mr.Addr())
+			lims := make([]*TokenLimiter, nl)
+			for k := range lims {
+				lims[k] = NewTokenLimiter(int(rate), int(burst), store, key)
+			}
+			clock := time.Unix(1_600_000_000+int64(r.Intn(1000000)), 0)
+			level := burst
+			var totalGrant, totalDeny, offRedis int64
+			ok := true
+			for round := 0; round < 3 && ok; round++ {
+				if round > 0 {
+					adv := int64(r.Intn(2))
+					clock = clock.Add(time.Duration(adv) * time.Second)
+					srv.mr.FastForward(time.Duration(adv) * time.Second)
+					level += adv * rate
+					if level > burst {
+						level = burst
+					}
+				}
+				now := clock
+				e0 := srv.evals.Load()
+				var granted, denied, slow atomic.Int64
+				var wg sync.WaitGroup
+				gate := make(chan struct{})
+				for g := 0; g < G; g++ {
+					wg.Add(1)
+					go func(l *TokenLimiter) {
+						defer wg.Done()
+						<-gate
+						for k := 0; k < per; k++ {
+							t0 := time.Now()
+							if l.AllowN(now, 1) {
+								granted.Add(1)
+							} else {
+								denied.Add(1)
+							}
+							if time.Since(t0) >= c08FastCall {
+								slow.Add(1)
+							}
+						}
+					}(lims[g%nl])
+				}
+				close(gate)
+				wg.Wait()
+				e := srv.evals.Load() - e0
+				calls := int64(G * per)
+				m.Count(cnt+".allowN", calls)
+				if slow.Load() > 0 || c08Misrouted(key) || e > calls {
+					// a stalled call may have been repeated or given up by the client: not judged
+					m.Count(cnt+".abandoned", 1)
+					ok = false
+					break
+				}
+				offRedis += calls - e
+				totalGrant += granted.Load()
+				totalDeny += denied.Load()
+				if granted.Load() > level {
+					m.Violate(sig+"-over-admission", desc,
+						"round %d: %d concurrent AllowN(n=1) calls in one caller second were granted %d tokens, the bucket held %d (rate %d, burst %d); %d of the calls were answered without a script execution although the server is up and was never down; %d denials before this round",
+						round, calls, granted.Load(), level, rate, burst, calls-e, totalDeny-denied.Load())
+					ok = false
+					break
+				}
+				if e == calls && granted.Load() < level && denied.Load() > 0 {
+					m.Violate(sig+"-denied-with-tokens-left", desc, "round %d: %d calls all answered by Redis, %d granted although the bucket held %d", round, calls, granted.Load(), level)
+					ok = false
+					break
+				}
+				level -= granted.Load()
+			}
+			srv.mr.Close()
+			if ok {
+				m.Count(cnt+".answered-without-script", offRedis)
+				m.Count(cnt+".grant", totalGrant)
+				m.Count(cnt+".deny", totalDeny)
+				m.Case(vk.Digest(rate, burst, nl, per, totalGrant, totalDeny), totalDeny >= 100)
+				if m.WantSample() {
+					m.Sample(map[string]any{"case": i, "rate": rate, "burst": burst, "limiters_on_one_key": nl, "goroutines": G, "calls_each_per_round": per, "rounds": 3, "granted": totalGrant, "denied": totalDeny})
+				}
+			}
+		}
+	}
+	return true
 }
 
 // ---------------------------------------------------------------------------
@@ -1493,6 +1556,81 @@ func runC08Silent(m *vk.M, idx int) {
 		"slowest_call_ms": slowest.Milliseconds(), "trace (g/d redis, G/D fallback, | return)": c08Trunc(x.obs.String(), 120)})
 }
 
+// runC08LongOutage: the outage lasts seconds of REAL time while the recovery
+// monitor is already running (all other outage scenarios are over within
+// milliseconds of monitor time). The sleep is not a verdict; the verdicts are
+// the usual ones: fallback bound during the outage, an EVAL of the limiter
+// executed again within 10 s after the fault is removed, agreement with the
+// reference bucket one refill period later.
+func runC08LongOutage(m *vk.M, idx int, fault string, down time.Duration) {
+	r := m.Rand("long-outage", idx)
+	rate := int64(1 + r.Intn(5))
+	burst := (rate+1)/2 + int64(1+r.Intn(8))
+	sc := c08OScenario{Rate: rate, Burst: burst, Base: 1_600_000_000 + int64(r.Intn(100_000_000))}
+	x := &c08ORun{m: m, idx: idx, sc: sc, key: fmt.Sprintf("c08l%d", idx)}
+	x.desc = fmt.Sprintf("case=%d;{\"fault\":%q,\"outage_real_ms\":%d,\"rate\":%d,\"burst\":%d}", idx, fault, down.Milliseconds(), rate, burst)
+	srv, err := newC08Srv("{" + x.key + "}")
+	if err != nil {
+		m.Inconclusive("miniredis: %v", err)
+		return
+	}
+	defer srv.mr.Close()
+	x.srv = srv
+	x.tl = NewTokenLimiter(int(rate), int(burst), redis.New(srv.mr.Addr()), x.key)
+	x.clock = time.Unix(sc.Base, 0)
+	x.ref = c08Bucket{rate: rate, burst: burst}
+	x.whole = true
+	x.fault = "none"
+	if !x.up([]c08Call{{N: 1}, {N: 1}}, "before-outage") {
+		return
+	}
+	x.fault = "long-" + fault
+	if fault == "close" {
+		srv.mr.Close()
+	} else {
+		srv.errMode.Store(true)
+	}
+	m.Count("outage.fault.long-"+fault, 1)
+	step := func(c c08Call, where string) bool {
+		x.advance(c.Adv)
+		g, e := x.call(c.N)
+		if e < 0 {
+			return false
+		}
+		if e != 0 {
+			m.Inconclusive("case %d: server executed an EVAL while the fault %s was active", idx, fault)
+			return false
+		}
+		return x.rescue(c.N, g, where)
+	}
+	if !step(c08Call{N: 1}, "first call of the long outage") { // starts the recovery monitor
+		return
+	}
+	time.Sleep(down)
+	for i := 0; i < int(burst)+4; i++ {
+		if !step(c08Call{Adv: int64(r.Intn(2)) * 1000, N: 1 + int64(r.Intn(2))}, fmt.Sprintf("call %d after %v of outage", i, down)) {
+			return
+		}
+	}
+	if fault == "close" {
+		if err := srv.mr.Restart(); err != nil {
+			m.Count("outage.restart-failed", 1)
+			return
+		}
+		srv.install()
+	} else {
+		srv.errMode.Store(false)
+	}
+	if !x.waitReturn() {
+		return
+	}
+	x.resync()
+	if !x.up([]c08Call{{N: 1}, {N: burst}, {N: 1}, {Adv: 1000, N: 1}}, "after-return") {
+		return
+	}
+	m.Case(vk.Digest("long", fault, down, rate, burst, x.obs.String()), x.nresc > 0 && x.nredis > 0)
+}
+
 // runC08BreakerOpen: the token limiter shares its *redis.Redis with a period
 // limiter. While the server answers every command with an error, only the period
 // limiter is used: its failures open the store's circuit breaker; the token
@@ -1603,6 +1741,32 @@ func TestVerifC08TokenOutage(t *testing.T) {
 				defer wg.Done()
 				runC08Silent(m, idx)
 			}()
+		}
+	}
+	// outages that last seconds of real time (they sleep; run beside the rest)
+	longs := []struct {
+		fault string
+		d     time.Duration
+	}{{"error", 2600 * time.Millisecond}, {"close", 3200 * time.Millisecond}}
+	if vk.Thorough() {
+		longs = append(longs, struct {
+			fault string
+			d     time.Duration
+		}{"error", 6 * time.Second}, struct {
+			fault string
+			d     time.Duration
+		}{"close", 11 * time.Second}, struct {
+			fault string
+			d     time.Duration
+		}{"error", 12 * time.Second})
+	}
+	for k, lo := range longs {
+		if idx := 300000 + k; m.Only(idx) {
+			wg.Add(1)
+			go func(fault string, d time.Duration) {
+				defer wg.Done()
+				runC08LongOutage(m, idx, fault, d)
+			}(lo.fault, lo.d)
 		}
 	}
 	// open-breaker scenarios (fast)
